@@ -375,6 +375,16 @@ def run_c12(tier, seed, wd, info, verdict):
             scs.append(sc)
             meta[sid] = sc
             nprior += 1
+    # MORE PARTICIPANTS REQUESTED THAN THE CLUSTER HAS INSTANCES ("success for n participants": a generation that runs among fewer
+    # participants than requested is not the one the client asked for - DkgTrace 'participants'), with thresholds inside the permitted
+    # range for the REQUESTED n, some of them above the number of instances
+    for m, n, t in ((3, 4, 3), (3, 5, 3), (3, 5, 4), (3, 7, 4), (2, 3, 2), (4, 5, 3), (4, 7, 7)) if tier != "quick" else ((3, 4, 3), (3, 5, 3), (3, 5, 4), (2, 3, 2), (4, 7, 4)):
+        for init in (1, m):
+            k += 1
+            sid = "C12-%d" % k
+            sc = dict(id=sid, ids=list(range(1, m + 1)), n=n, t=t, initiator=init, account="DW/g%d" % k, generate=True, probe=False)
+            scs.append(sc)
+            meta[sid] = sc
     conc_model = conc_model_phase(tier, wd, info)
     by = run_parallel(scs, wd, "c12")
     conc = conc_gens_phase(tier, seed, wd, info, verdict)
